@@ -408,3 +408,200 @@ M.contract(P_ENV + ':TheInstructionEmbryo._resolve_applier_factory',
                       and result._setup_phase_settings is setup_phase_settings))
                     and result.instruction_settings is instruction_settings},
            raises_only=())
+
+
+# ------------------------------------------------------------------------------ which sets: -of act / -of !act / neither
+
+from exactly_lib.impls.instructions.multi_phase.environ import parse as env_parse, defs as env_defs
+from exactly_lib.section_document.element_parsers.instruction_parser_exceptions import \
+    SingleInstructionInvalidArgumentException
+from exactly_lib.section_document.element_parsers.token_stream_parser import TokenParser
+
+P_PARSE = 'exactly_lib.impls.instructions.multi_phase.environ.parse'
+
+
+def _optional_option(interp, self, args, kwargs):
+    """TokenParser.consume_and_handle_optional_option(default, argument_parser, option_name) (token level: C09):
+    the head token is the option -> it is consumed and argument_parser(self) decides; otherwise the default."""
+    default, argument_parser, option_name = args
+    present = interp.st.choose(2)
+    interp.st.emit('option', option_name, bool(present))
+    if present:
+        return interp.call(argument_parser, [self], {})
+    return default
+
+
+def _constant(interp, self, args, kwargs):
+    """TokenParser.consume_mandatory_constant_string_that_must_be_unquoted_and_equal(constants, mapper, header):
+    the head token is one of the constants -> mapper(constant); anything else is a syntax error."""
+    constants, mapper = args[0], args[1]
+    k = interp.st.choose(len(constants) + 1)
+    if k == len(constants):
+        raise __import__('pyvc.interp', fromlist=['PyRaise']).PyRaise(SingleInstructionInvalidArgumentException('x'))
+    interp.st.emit('constant', constants[k])
+    return interp.call(mapper, [constants[k]], {})
+
+
+class TokenParserI(Interface):
+    target_class = TokenParser
+    methods = {'consume_and_handle_optional_option': Method(model=_optional_option),
+               'consume_mandatory_constant_string_that_must_be_unquoted_and_equal': Method(model=_constant)}
+
+
+def _documented_sets(trace):
+    """-of act: the act set; -of !act: the non-act set; no option: both"""
+    opt = [e for e in trace if e[0] == 'option'][0]
+    if not opt[2]:
+        return frozenset((ACT, NON_ACT))
+    c = [e for e in trace if e[0] == 'constant'][0][1]
+    return {'act': frozenset((ACT,)), '!act': frozenset((NON_ACT,))}[c]
+
+
+M.contract(P_PARSE + ':EmbryoParser._parse_phases', params=dict(token_parser=Iface(TokenParserI)),
+           may_raise=(SingleInstructionInvalidArgumentException,),
+           ensures={'-of act / -of !act / neither': lambda result, trace:
+           result == _documented_sets(trace) and [e for e in trace if e[0] == 'option'][0][1].long == 'of'},
+           raises_only=())
+
+
+# ------------------------------------------------------------------------------ the settings objects
+
+P_IS = 'exactly_lib.test_case.phases.instruction_settings'
+P_SSB = 'exactly_lib.test_case.phases.setup.settings_builder'
+
+M.contract(P_IS + ':InstructionSettings.set_timeout', params=dict(self=SETTINGS, seconds=Opt(Int)), inline=True,
+           modifies=('self',), old=lambda self: self.environ(),
+           ensures={'timeout set, environ untouched': lambda self, seconds, old:
+           self.timeout_in_seconds() == seconds and self.environ() is old}, raises_only=())
+M.contract(P_IS + ':InstructionSettings.set_environ', params=dict(self=SETTINGS, x=Opt(ENVIRON)), inline=True,
+           modifies=('self',), old=lambda self: self.timeout_in_seconds(),
+           ensures={'environ set, timeout untouched': lambda self, x, old:
+           self.environ() is x and self.timeout_in_seconds() == old}, raises_only=())
+M.contract(P_IS + ':InstructionSettings.__init__',
+           params=dict(self=Inst(InstructionSettings), environ=Opt(ENVIRON),
+                       default_environ_getter=Iface(DefaultEnvironGetterI), timeout_in_seconds=Opt(Int)), inline=True,
+           ensures={'holds what it is given': lambda self, environ, default_environ_getter, timeout_in_seconds:
+           self.environ() is environ and self.default_environ_getter is default_environ_getter
+           and self.timeout_in_seconds() == timeout_in_seconds}, raises_only=())
+M.contract(P_SSB + ':SetupSettingsBuilder.environ', params=dict(self=SETUP_SETTINGS), inline=True,
+           ensures={'the act set': lambda self, result: result is self._environ}, raises_only=())
+
+
+# ------------------------------------------------------------------------------ timeout
+
+from exactly_lib.impls.instructions.multi_phase.timeout import impl as timeout_impl
+
+
+class IntegerDdvI(Interface):
+    methods = {'value_of_any_dependency': Method(returns=Int, event='timeout-value')}
+
+
+class IntegerSdvI(Interface):
+    methods = {'resolve': Method(returns=Iface(IntegerDdvI))}
+
+
+M.contract('exactly_lib.impls.instructions.multi_phase.timeout.impl:TheInstructionEmbryo.main',
+           params=dict(self=Inst(timeout_impl.TheInstructionEmbryo, _value=Opt(Iface(IntegerSdvI))),
+                       environment=Iface(InstructionEnvironmentI), settings=SETTINGS, os_services=Any_),
+           modifies=('settings',), old=lambda settings: (settings.environ(), _snapshot(settings.environ())),
+           ensures={
+               'timeout := the resolved value; `none` => no timeout': lambda self, settings, trace:
+               settings.timeout_in_seconds() == (None if self._value is None else
+                                                 [e[2] for e in trace if e[0] == 'timeout-value:returned'][0]),
+               'environment untouched': lambda settings, old: _untouched(settings.environ(), old[0], old[1]),
+           }, raises_only=())
+
+
+# ------------------------------------------------------------------------------ cd
+
+import os
+from exactly_lib.impls.instructions.multi_phase import change_dir
+
+
+def _chdir(interp, args, kwargs):
+    """os.chdir: changes the current directory of this process (ghost `cwd`, event `chdir`) or fails without
+    changing it."""
+    from pyvc.interp import PyRaise
+    (p,) = args
+    k = interp.st.choose(4)
+    if k == 1:
+        raise PyRaise(FileNotFoundError(2, 'No such file or directory'))
+    if k == 2:
+        raise PyRaise(NotADirectoryError(20, 'Not a directory'))
+    if k == 3:
+        raise PyRaise(PermissionError(13, 'Permission denied'))
+    interp.st.ghost['cwd'] = p
+    interp.st.emit('chdir', p)
+    return None
+
+
+M.model(os.chdir, _chdir)
+M.trust('os.chdir(p) sets the current directory of this process to p, or raises OSError and leaves it unchanged')
+M.assume('a child process has its own current directory: nothing a child does changes the cwd of Exactly '
+         '(operating system semantics); the cwd of Exactly changes only through os.chdir (check `chdir-call-sites`)')
+
+
+class PrimitivePathI(Interface):
+    methods = {'__str__': Method(returns=Str, pure=True)}
+
+
+class DescribedPathI(Interface):
+    attrs = {'primitive': Iface(PrimitivePathI), 'describer': Any_}
+
+
+class PathDdvI(Interface):
+    methods = {'value_post_sds__d': Method(returns=Iface(DescribedPathI), event='path')}
+
+
+class PathSdvI(Interface):
+    methods = {'resolve': Method(returns=Iface(PathDdvI))}
+
+
+class PathResolvingEnvI(Interface):
+    attrs = {'symbols': Any_, 'sds': Any_}
+
+
+M.contract('exactly_lib.impls.types.path.path_err_msgs:line_header__primitive', trusted=True,
+           params=dict(header=Str, path=Any_), returns=Any_)
+M.trust('impls.types.path.path_err_msgs.line_header__primitive only builds an error message (never None)')
+
+
+def _resolved_dir(trace):
+    return str([e[2] for e in trace if e[0] == 'path:returned'][0].primitive)
+
+
+M.contract('exactly_lib.impls.instructions.multi_phase.change_dir:InstructionEmbryo.custom_main',
+           params=dict(self=Inst(change_dir.InstructionEmbryo, destination=Iface(PathSdvI)),
+                       environment=Iface(PathResolvingEnvI)),
+           may_raise=(PermissionError,),
+           ensures={
+               'success: the current directory is the resolved destination': lambda result, trace, ghost:
+               implies(result is None, ghost.get('cwd') == _resolved_dir(trace)
+                       and [e[1] for e in trace if e[0] == 'chdir'] == [_resolved_dir(trace)]),
+               'error message: the current directory is unchanged': lambda result, trace, ghost:
+               implies(result is not None, 'cwd' not in ghost and [e for e in trace if e[0] == 'chdir'] == []),
+           }, raises_only=())
+
+
+@M.check('chdir-call-sites')
+def _chdir_call_sites(ctx):
+    """Frame: the current directory of Exactly is changed by exactly three call sites."""
+    import ast, pathlib
+    import exactly_lib
+    root = pathlib.Path(exactly_lib.__file__).parent
+    sites = []
+    for f in sorted(root.rglob('*.py')):
+        src = f.read_text()
+        if 'chdir' not in src:
+            continue
+        for n in ast.walk(ast.parse(src)):
+            if isinstance(n, ast.Attribute) and n.attr in ('chdir', 'fchdir'):
+                sites.append('%s:%d' % (f.relative_to(root), n.lineno))
+            elif isinstance(n, ast.Name) and n.id in ('chdir', 'fchdir'):
+                sites.append('%s:%d' % (f.relative_to(root), n.lineno))
+    files = sorted({s.rpartition(':')[0] for s in sites})
+    ctx.obligation('os.chdir is referenced only by: the cd instruction, the executor (cd to act dir when the sandbox '
+                   'is set up), preserved_cwd (restores the cwd after the execution)',
+                   files == ['execution/partial_execution/impl/executor.py',
+                             'impls/instructions/multi_phase/change_dir.py', 'util/file_utils/misc_utils.py']
+                   and len(sites) == 3, 'enumeration', detail={'sites': sites})
